@@ -599,4 +599,5 @@ RECIPES += [
     ("C20", "break", ["C20-R2"], S, _GETR_BODY, _GETR_TERMS.replace("norm.cdf(lhi) - norm.cdf(llo) - prob,", "norm.cdf(lhi) + norm.cdf(llo) - prob,"), "terms helper: residual with the wrong sign on the lower limit"),
     ("C20", "break", ["C20-R2"], S, _GETR_BODY, _GETR_HANDED_ON.replace("_getr_iterate(r, sn, spi, prob, tol)", "_getr_iterate(r, sn, spi, tol, prob)"), "loop helper called with tol and prob swapped"),
     ("C20", "break", ["C20-R2"], S, _GETR_BODY, _GETR_HANDED_ON.replace("    return _getr_iterate(", "    return 1.001 * _getr_iterate("), "result of the loop helper scaled before it is returned"),
+    ("C20", "break", ["C20-R4"], S, "            a = r\n", "            a = max(r, int((r - 1) / (1 - p)))\n", "bracket search started above the least admissible sample size: the early exit may return a non-minimal n"),
 ]
